@@ -1,6 +1,7 @@
 import Gopki.Lemmas.CalInv
 import Gopki.Model.Db
 import Gopki.Props.C02
+import Gopki.Lemmas.Instant
 /-! # C04 — validity period in the certificate equals the configured dates or duration
 
 The calendar is the proleptic Gregorian one on integer days (`Gopki.Base.Calendar`); the model of
@@ -56,5 +57,25 @@ theorem C04_utc_tag (c : Asn1.Civil) (t : Der.Tlv) (h : Asn1.tTime c = some t) :
 theorem C04_inherit (own prof : Config.Validity) :
     (if !own.isSet && prof.isSet then prof else own) = (if own.isSet then own else if prof.isSet then prof else own) := by
   cases own.isSet <;> cases prof.isSet <;> rfl
+
+/-- **both halves of the calendar law**, for every day number and every valid date of every year -/
+theorem C04_calendar_bijection :
+    (∀ (y : Int) (m d : Nat), Calendar.validDate y m d = true → Calendar.civilFromDays (Calendar.daysFromCivil y m d) = (y, m, d)) ∧
+    (∀ z : Int, Calendar.validDate (Calendar.civilFromDays z).1 (Calendar.civilFromDays z).2.1 (Calendar.civilFromDays z).2.2 = true ∧
+      Calendar.daysFromCivil (Calendar.civilFromDays z).1 (Calendar.civilFromDays z).2.1 ((Calendar.civilFromDays z).2.2 : Int) = z) :=
+  ⟨Calendar.civilFromDays_daysFromCivil, Calendar.daysFromCivil_civilFromDays⟩
+
+/-- **notBefore / notAfter carry exactly the configured instants**: for every instant whose UTC year lies in
+    0 … 9999 (later ones are rejected, repair 19) the validity field the model writes is read back by the
+    specification reader as exactly that instant — UTCTime for 1950 … 2049, GeneralizedTime otherwise, canonical
+    form.  Together with `C04_date_is_local_midnight` (a configured date is local midnight of that day) and the
+    byte-for-byte correspondence of the model's certificates this is the statement of C04 for absolute dates. -/
+theorem C04_instant_roundtrip (t : Int) (hy : 0 ≤ (Calendar.wallOf t 0).year ∧ (Calendar.wallOf t 0).year ≤ 9999) :
+    ∃ tag content, Gen.timeTlv t = .ok (.prim tag content) ∧ X509.decTime tag content = some t ∧
+      X509.primCanonical tag content = true ∧ (tag = 0x17 ↔ (1950 ≤ (Calendar.wallOf t 0).year ∧ (Calendar.wallOf t 0).year < 2050)) :=
+  Gen.timeTlv_roundtrip t hy
+
+/-- non-vacuity: 2026-09-29 00:00:00 UTC (1790553600) is in range -/
+example : 0 ≤ (Calendar.wallOf 1790553600 0).year ∧ (Calendar.wallOf 1790553600 0).year ≤ 9999 := by decide
 
 end C04
